@@ -111,7 +111,7 @@ def run(ctx):
     rg = files.get('src/range.rs')
     if rg is None:
         r.fail('anchor:range.rs', '-', 'src/range.rs not found (fail closed)')
-        return r
+        return [r, run_origin(ctx)]
     eq_fn = cmp_fn = None
     for mp, it in sx.items_rec(rg['items']):
         if it['k'] == 'impl' and sx.render_ty(it['self_ty']) == 'Range':
@@ -124,7 +124,7 @@ def run(ctx):
     r.exactly('Range::eq', 1 if eq_fn else 0, 1)
     r.exactly('Range::cmp', 1 if cmp_fn else 0, 1)
     if not eq_fn or not cmp_fn:
-        return r
+        return [r, run_origin(ctx)]
     where_eq = '%s/src/range.rs:%s' % (CRATE, eq_fn['l'])
     where_cmp = '%s/src/range.rs:%s' % (CRATE, cmp_fn['l'])
     # all order types of (a=self.begin, b=self.end, c=other.begin, d=other.end) with a<b, c<d: assign ranks 0..3
@@ -163,7 +163,7 @@ def run(ctx):
     if undecided is not None:
         r.notes.append('UNDECIDED: Range::eq/cmp use a construct the comparison interpreter does not model (%s); not decided' % undecided)
         r.counts['undecided'] = 1
-        return r
+        return [r, run_origin(ctx)]
     if bad_eq:
         s_, o_, got = bad_eq[0]
         r.fail('%s:Range::eq:not-overlap' % CRATE, where_eq,
@@ -176,4 +176,202 @@ def run(ctx):
                'Range::cmp for self=[%d,%d) other=[%d,%d) returns %s, expected %s (Equal iff overlapping, otherwise ordered by begin)' %
                (s_[0], s_[1], o_[0], o_[1], got, want))
     r.floor('order_types', len(cases), 13)
+    return [r, run_origin(ctx)]
+
+
+# ---- X20: PreprocessedText::origin(pos) ---------------------------------------------------------------------------
+def _int(e, env):
+    """integer expression over pos / len / struct locals (small-domain evaluation)"""
+    k = e.get('k')
+    if k == 'lit' and e.get('t') == 'int':
+        return int(e['v'])
+    if k == 'path' and e['p'] in env and isinstance(env[e['p']], int):
+        return env[e['p']]
+    if k == 'binary' and e['op'] in ('+', '-'):
+        a, b = _int(e['l_'], env), _int(e['r'], env)
+        return a + b if e['op'] == '+' else a - b
+    if k == 'try':
+        return _int(e['e'], env)
+    if k == 'field':
+        base = e['e']
+        if sx.is_path(base) and isinstance(env.get(base['p']), dict) and e['m'] in env[base['p']]:
+            return env[base['p']][e['m']]
+        txt = sx.render(e).replace(' ', '')
+        if txt in env and isinstance(env[txt], int):
+            return env[txt]
+    if k == 'mcall':
+        txt = sx.render(e).replace(' ', '')
+        if txt in ('self.text.len()', 'self.text().len()'):
+            return env['#len']
+        if e['m'] in ('checked_add', 'saturating_add', 'wrapping_add') and len(e['args']) == 1:
+            return _int(e['recv'], env) + _int(e['args'][0], env)
+    raise Undecided(sx.render(e)[:40])
+
+
+def _cond(c, env):
+    if c.get('k') == 'binary' and c['op'] in ('<', '<=', '>', '>=', '==', '!='):
+        a, b = _int(c['l_'], env), _int(c['r'], env)
+        return {'<': a < b, '<=': a <= b, '>': a > b, '>=': a >= b, '==': a == b, '!=': a != b}[c['op']]
+    if c.get('k') == 'binary' and c['op'] in ('&&', '||'):
+        a, b = _cond(c['l_'], env), _cond(c['r'], env)
+        return (a and b) if c['op'] == '&&' else (a or b)
+    if c.get('k') == 'unary' and c['op'] == '!':
+        return not _cond(c['e'], env)
+    raise Undecided(sx.render(c)[:40])
+
+
+def run_origin(ctx):
+    from vlib import paths as _paths
+    r = RuleResult('X20', 'origin(pos): a 1-byte probe at pos, the position translated by the segment\'s offset, None only when the map has no entry or the segment has no origin')
+    files = sx.crate_files(ctx.syn, CRATE)
+    fn = None
+    for fl, fv in files.items():
+        for mp, it in sx.items_rec(fv.get('items', [])):
+            if it['k'] == 'impl' and sx.render_ty(it['self_ty']) == 'PreprocessedText' and not it.get('trait_path'):
+                for f in it['items']:
+                    if f.get('k') == 'fn' and f['name'] == 'origin':
+                        fn, ffile = f, fl
+    r.exactly('PreprocessedText::origin', 1 if fn else 0, 1)
+    if not fn:
+        return r
+    where = '%s/%s:%s' % (CRATE, ffile, fn['l'])
+    ps = [sx.pat_idents(p['pat'])[0] for p in fn['sig']['params'] if p.get('k') == 'typed']
+    if len(ps) != 1:
+        r.undecided('%s:origin:signature' % CRATE, where, 'origin takes %d parameters besides self' % len(ps))
+        return r
+    pos = ps[0]
+    body = fn['body']
+    # (a) the probe
+    gets = [n for n in sx.walk(body) if n.get('k') == 'mcall' and n['m'] == 'get' and 'origins' in sx.render(n['recv'])]
+    r.inst('probe')
+    probe_ok = None
+    if len(gets) == 1:
+        key = sx.strip_ref(gets[0]['args'][0])
+        if sx.is_path(key):
+            ls = [n for n in sx.walk(body) if n.get('k') == 'let' and n.get('pat', {}).get('k') == 'ident' and n['pat']['n'] == key['p'] and 'init' in n]
+            key = ls[-1]['init'] if len(ls) == 1 else key
+        if sx.callee(key) in ('Range::new', 'range::Range::new') and len(key['args']) == 2:
+            try:
+                vals = [(_int(key['args'][0], {pos: p_, '#len': 9}), _int(key['args'][1], {pos: p_, '#len': 9})) for p_ in (0, 3)]
+                probe_ok = vals == [(0, 1), (3, 4)]
+                if not probe_ok:
+                    r.fail('%s:origin:probe' % CRATE, where, 'origin(%s) looks up %s; the probe must be the one byte [%s, %s+1)' % (pos, sx.render(key)[:50], pos, pos))
+            except Undecided:
+                pass
+    if probe_ok is None:
+        r.undecided('%s:origin:probe' % CRATE, where, 'how origin() probes the map is not recognised')
+    # (b)/(c) paths
+    try:
+        allp = _paths.enumerate_paths(body)
+    except _paths.Unmodelled as u:
+        r.undecided('%s:origin:paths' % CRATE, where, 'control flow not modelled (%s)' % u)
+        return r
+    lookup_vars = set()
+    for n in sx.walk(body):
+        if n.get('k') == 'let' and n.get('pat', {}).get('k') == 'ident' and 'init' in n and any(z is g_ for g_ in gets for z in sx.walk(n['init'])):
+            lookup_vars.add(n['pat']['n'])
+    for p_ in allp:
+        ex = p_.exit
+        r.inst()
+        is_none = sx.is_path(ex, 'None')
+        if not is_none:
+            continue
+        legit = False
+        intconds = []
+        unknown = None
+        seg_var = None
+        for c, pol in p_.conds:
+            txt = sx.render(c).replace(' ', '')
+            if c.get('k') == 'let':
+                src = sx.render(c['e']).replace(' ', '')
+                is_lookup = any(src == v for v in lookup_vars) or any(z is g_ for g_ in gets for z in sx.walk(c['e']))
+                is_origin_field = src.endswith('.origin')
+                some_pat = c['pat'].get('k') == 'ts' and c['pat']['p'] == 'Some'
+                if (is_lookup or is_origin_field) and some_pat:
+                    if not pol:
+                        legit = True            # no entry in the map / a segment without origin
+                    elif is_lookup:
+                        ids_ = [x for x in sx.pat_idents(c['pat']) if x]
+                        seg_var = ids_[0] if ids_ else None
+                    continue
+                unknown = 'pattern condition `%s`' % sx.render(c)[:40]
+                continue
+            if c.get('k') == 'arm':
+                pt = sx.render(c['pat']).replace(' ', '')
+                if pt in ('None', '_'):
+                    legit = True
+                elif pt.startswith('Some('):
+                    ids_ = [x for x in sx.pat_idents(c['pat']) if x]
+                    if seg_var is None and ids_:
+                        seg_var = ids_[0]
+                else:
+                    unknown = 'match arm `%s`' % pt[:30]
+                continue
+            intconds.append((c, pol))
+        if legit:
+            continue
+        # a None exit that does not depend on the lookup: it must be unreachable for every valid position (pos < len)
+        witness = None
+        try:
+            for ln_, pv, sb_, se_ in [(l_, p__, b_, e_) for l_ in range(1, 6) for p__ in range(0, l_) for b_ in range(0, p__ + 1) for e_ in range(p__ + 1, l_ + 1)]:
+                if True:
+                    env = {pos: pv, '#len': ln_}
+                    if seg_var:
+                        env['%s.range.begin' % seg_var] = sb_
+                        env['%s.range.end' % seg_var] = se_
+                    # struct locals bound on the path (Range::new(a, b))
+                    for name, st_ in p_.binds.items():
+                        if isinstance(st_, dict) and st_.get('k') == 'let' and 'init' in st_ and sx.callee(st_['init']) in ('Range::new', 'range::Range::new') and len(st_['init']['args']) == 2:
+                            try:
+                                env[name] = {'begin': _int(st_['init']['args'][0], env), 'end': _int(st_['init']['args'][1], env)}
+                            except Undecided:
+                                pass
+                    if all(_cond(c, env) == pol for c, pol in intconds):
+                        witness = (pv, ln_, sb_, se_)
+                        break
+        except Undecided as u:
+            unknown = str(u)
+        line_ = ex.get('l') or fn['l']
+        if unknown is not None and witness is None:
+            r.undecided('%s:origin:early-none' % CRATE, '%s/%s:%s' % (CRATE, ffile, line_), 'origin() returns None on a path that does not depend on the map lookup, under a condition the rule cannot evaluate (%s)' % unknown)
+        elif witness is not None:
+            r.fail('%s:origin:valid-position-without-origin' % CRATE, '%s/%s:%s' % (CRATE, ffile, line_),
+                   'origin(%s) returns None although the map has a segment with an origin for the position (or without consulting the map) when %s: reachable for a valid '
+                   'position (%s = %d in a text of %d bytes, segment [%d, %d)), so a byte copied from a source file has no origin' %
+                   (pos, ' and '.join(('' if pol else 'not ') + sx.render(c)[:40] for c, pol in intconds) or 'always', pos, witness[0], witness[1], witness[2], witness[3]))
+    # (b) the translated position
+    r.inst('translation')
+    somes = [p_.exit for p_ in allp if sx.is_call(p_.exit, 'Some')]
+    checked = False
+    for ex in somes:
+        tup = ex['args'][0]
+        if tup.get('k') != 'tuple' or len(tup['e']) != 2:
+            continue
+        val = tup['e'][1]
+        if sx.is_path(val):
+            ls = [n for n in sx.walk(body) if n.get('k') == 'let' and n.get('pat', {}).get('k') == 'ident' and n['pat']['n'] == val['p'] and 'init' in n]
+            val = ls[-1]['init'] if len(ls) == 1 else val
+        try:
+            ok = True
+            for pv, sb, ob in ((5, 2, 40), (7, 7, 0), (9, 0, 13)):
+                env = {pos: pv, '#len': 99}
+                # any `X.range.begin` is the segment begin, any `Y.begin` otherwise the origin-range begin
+                def fld(e_):
+                    t_ = sx.render(e_).replace(' ', '')
+                    return t_
+                vals = {}
+                for n in sx.walk(val):
+                    if n.get('k') == 'field' and n['m'] == 'begin':
+                        t_ = fld(n)
+                        vals[t_] = sb if '.range.' in t_ else ob
+                env.update(vals)
+                if _int(val, env) != pv - sb + ob:
+                    ok = False
+            checked = True
+            if not ok:
+                r.fail('%s:origin:translation' % CRATE, where, 'origin(%s) returns `%s`; the source position is %s - <segment begin> + <origin range begin>' % (pos, sx.render(val)[:60], pos))
+        except Undecided:
+            pass
+    if not checked:
+        r.undecided('%s:origin:translation' % CRATE, where, 'how the returned position is computed is not recognised')
     return r
